@@ -361,6 +361,95 @@ pub fn tlong(g: &mut Gen, shard: usize) {
 }
 
 // ------------------------------------------------------------------------------------------------
+// T-pages: ONE tree with more than 2^16 PAGES (a table hasher gives a regular 4-level shape: every
+// level-0 key is a page of its own), built with a hash request after every group; then hash
+// requests that have to regenerate EXACTLY 255 / 256 / 257 / 65535 / 65536 / 65537 / all pages:
+// anything that counts pages (rehashed, visited, serialised) in a narrow integer
+// ------------------------------------------------------------------------------------------------
+
+pub fn tpages(g: &mut Gen, shard: usize) {
+    if shard > 3 {
+        return;
+    }
+    let n = 4usize;
+    let base = 16u8;
+    set_val_pos(1);
+    // shard 0: 256 groups x 256 leaf pages (65 794 pages); shard 1: 16 x 16 (274 pages), full oracles
+    // (shards 0, 2, 3 build the same big tree and share the probes between them: wall time)
+    let (ng, nj) = if shard != 1 { (256usize, 256usize) } else { (16, 16) };
+    let quiet = if shard != 1 { "hashq" } else { "hash" };
+    let kroot = vec![0xffu8, 0xff, 0xff, 0xff];
+    let k2 = |gi: usize| vec![gi as u8, 0xff, 0xff];
+    let k1 = |gi: usize, j: usize| vec![gi as u8, j as u8, 0x80];
+    let k0 = |gi: usize, j: usize| vec![gi as u8, j as u8, 0x01];
+    let d = |l: u32| digest_for_level(l, base, n, 0x10);
+    g.op(format!("new 0 {base} n={n}"));
+    g.cases += 1;
+    if shard == 1 {
+        g.op(format!("ups 0 {} {} {}", xtok(&kroot), xtok(&d(3)), xtok(&val_digest(1, n))));
+    }
+    for gi in 0..ng {
+        for j in 0..nj {
+            g.op(format!("ups 0 {} {} {}", xtok(&k0(gi, j)), xtok(&d(0)), xtok(&val_digest(1, n))));
+            g.op(format!("ups 0 {} {} {}", xtok(&k1(gi, j)), xtok(&d(1)), xtok(&val_digest(1, n))));
+        }
+        g.op(format!("ups 0 {} {} {}", xtok(&k2(gi)), xtok(&d(2)), xtok(&val_digest(1, n))));
+        g.op(format!("{quiet} 0"));
+    }
+    if shard != 1 {
+        g.op(format!("ups 0 {} {} {}", xtok(&kroot), xtok(&d(3)), xtok(&val_digest(1, n))));
+    }
+    g.op("hash 0".into());
+    g.op("cach 0".into());
+    let total = 2 + ng + ng * nj;
+    let ser = g.op("ser 0".into());
+    if ser.split(' ').count() != total && ser != "panic" {
+        eprintln!("tpages: expected {total} pages, serialisation has {}", ser.split(' ').count());
+        std::process::exit(2);
+    }
+    let mut targets: Vec<usize> = match shard {
+        0 => vec![255, 256, 257, 65536],
+        2 => vec![65535, total],
+        3 => vec![65537],
+        _ => vec![255, 256, 257, total],
+    };
+    targets.retain(|t| *t <= total);
+    for (p, &t) in targets.iter().enumerate() {
+        // dirty pages = root + level-2 page + groups touched + leaf pages touched
+        let gc = if t == total { ng } else { (t - 2 + nj) / (nj + 1) };
+        let nkeys = t - 2 - gc;
+        assert!(nkeys >= gc && nkeys <= gc * nj);
+        let v = 2 + p as u8;
+        for i in 0..nkeys {
+            let (gi, j) = (i % gc, i / gc);
+            g.op(format!("ups 0 {} {} {}", xtok(&k0(gi, j)), xtok(&d(0)), xtok(&val_digest(v, n))));
+        }
+        g.op("cach 0".into());
+        g.op("ser 0".into());
+        if t == 65536 || shard == 1 {
+            let tr = g.op("trav 0 -".into());
+            let dirty = tr.split(' ').filter(|x| x.trim_start_matches('[').starts_with('P') && x.split(':').nth(1) == Some("-")).count();
+            g.note(&format!("dirty-pages-before-hash={dirty}"));
+            if dirty != t && tr != "panic" {
+                eprintln!("tpages: expected {t} dirty pages, saw {dirty}");
+                std::process::exit(2);
+            }
+        }
+        g.op("hash 0".into());
+        g.op("cach 0".into());
+        g.shapes.insert(t as u64);
+        g.cases += 1;
+        if t == 65536 || t == total {
+            g.op("ser 0".into());
+        }
+    }
+    // a clone that is hashed from scratch is not possible through the API (clones keep their caches);
+    // a fresh tree with the same content hashed ONCE is what check_hashed's rebuild already does
+    g.op("iter 0".into());
+    g.sample(format!("tpages shard {shard}: {total} pages, hash requests regenerating exactly {targets:?} pages"));
+}
+
+// ------------------------------------------------------------------------------------------------
 // T-hash: tens of thousands of hash requests on one small tree (each after a small change, some
 // after none): anything that depends on HOW OFTEN hashes were requested
 // ------------------------------------------------------------------------------------------------
@@ -579,6 +668,89 @@ pub fn tmid(g: &mut Gen, r: &mut Rng, cases: usize) {
 }
 
 // ------------------------------------------------------------------------------------------------
+// T-clone: several trees of one type; `clone` / `clone_from` between trees in EVERY combination of
+// cache states (hashed / dirty / never hashed, empty / non-empty, same / other level base), each
+// followed by every observation WITHOUT a hash request in between, then by further upserts
+// ------------------------------------------------------------------------------------------------
+
+pub fn tclone(g: &mut Gen, r: &mut Rng, cases: usize) {
+    for case in 0..cases {
+        let mut r = r.fork(case as u64);
+        set_val_pos(r.below(3) as u8);
+        let n = [3usize, 16, 20][r.below(3) as usize];
+        let nk = 3 + r.below(6) as usize;
+        let nlev = 2 + r.below(3) as u32;
+        let kds: Vec<Vec<u8>> = (0..nk).map(|i| digest_for_level(r.below(nlev as u64) as u32, 16, n, i as u8 * 2)).collect();
+        let nt = 2 + r.below(2);
+        for t in 0..nt {
+            // mostly one base; sometimes a tree with another base (the clone must take the source's)
+            let base = if r.chance(1, 5) { 4 } else { 16 };
+            g.op(format!("new {t} {base} n={n}"));
+        }
+        g.cases += 1;
+        let steps = 8 + r.below(20);
+        for _ in 0..steps {
+            let t = r.below(nt);
+            match r.below(100) {
+                0..=44 => {
+                    let i = r.below(nk as u64) as usize;
+                    g.op(format!("ups {t} {} {} {}", xtok(&[0x20 + i as u8]), xtok(&kds[i]), xtok(&val_digest(1 + r.below(2) as u8, n))));
+                }
+                45..=64 => {
+                    g.op(format!("hash {t}"));
+                }
+                65..=99 => {
+                    let mut src = r.below(nt);
+                    if src == t {
+                        src = (t + 1) % nt;
+                    }
+                    let from = r.chance(3, 4);
+                    let st = |g: &Gen, t: u64| -> &'static str {
+                        let s = &g.exec.trees[&t];
+                        match s.tree.as_ref() {
+                            None => "poisoned",
+                            Some(tr) => match (tr.cached().is_some(), s.content.is_empty()) {
+                                (true, true) => "hashed-empty",
+                                (true, false) => "hashed",
+                                (false, true) => "dirty-empty",
+                                (false, false) => "dirty",
+                            },
+                        }
+                    };
+                    let note = format!("{}:{}<-{}", if from { "clone_from" } else { "clone" }, st(g, t), st(g, src));
+                    g.note(&note);
+                    g.op(format!("{} {t} {src}", if from { "clonefrom" } else { "clone" }));
+                    // everything observable, with no hash request in between
+                    g.op(format!("cach {t}"));
+                    g.op(format!("ser {t}"));
+                    let tr = g.op(format!("trav {t} -"));
+                    g.shape(&tr);
+                    g.op(format!("iter {t}"));
+                    g.op(format!("diff2 {t} {src}"));
+                    g.op(format!("same {t} {src}"));
+                    if r.chance(1, 2) {
+                        g.op(format!("hash {t}"));
+                        g.op(format!("ser {t}"));
+                        g.op(format!("diff2 {t} {src}"));
+                    }
+                }
+                _ => unreachable!(),
+            }
+        }
+        for t in 0..nt {
+            g.op(format!("cach {t}"));
+            g.op(format!("ser {t}"));
+            g.op(format!("hash {t}"));
+            g.op(format!("ser {t}"));
+            g.op(format!("trav {t} -"));
+        }
+        if case < 2 {
+            g.sample(format!("tclone case {case}: {nt} trees, {nk} keys, levels<{nlev}, n={n}"));
+        }
+    }
+}
+
+// ------------------------------------------------------------------------------------------------
 // T-deep: VERY deep trees (17..64 levels): chains of lt children, chains of high pages, zigzags
 // ------------------------------------------------------------------------------------------------
 
@@ -586,14 +758,28 @@ pub fn tdeep(g: &mut Gen, r: &mut Rng, cases: usize) {
     for case in 0..cases {
         let mut r = r.fork(case as u64);
         set_val_pos(r.below(3) as u8);
-        let n = [9usize, 12, 16, 20, 32, 32][r.below(6) as usize];
+        // widths beyond 32 bytes reach levels above 64 (the widest the crate's own tests use); a level
+        // is at most 2n, so n = 127 reaches 253 - the last levels a u8 page level can carry
+        let n = [9usize, 12, 16, 20, 32, 32, 48, 64, 127][r.below(9) as usize];
         let base = [16u8, 2, 4, 255, 3][r.below(5) as usize];
-        let maxl = (2 * n as u32 - 1).min(64);
+        let maxl = (2 * n as u32 - 1).min(254);
         // the spine: m keys on m DISTINCT levels
         let m = (17 + r.below(30) as u32).min(maxl) as usize;
         let mut levels: Vec<u32> = (0..maxl).collect();
         r.shuffle(&mut levels);
         levels.truncate(m);
+        if n > 32 {
+            // always include the top of the range and the neighbours of 64 / 128
+            for (i, l) in [maxl - 1, 63, 64, 65, 66, 127.min(maxl - 1), 128.min(maxl - 1), 129.min(maxl - 1)].iter().enumerate() {
+                if !levels.contains(l) {
+                    levels[i] = *l;
+                }
+            }
+            levels.sort();
+            levels.dedup();
+            r.shuffle(&mut levels);
+        }
+        let m = levels.len();
         let shape = r.below(4);
         match shape {
             0 => levels.sort(),                          // ascending with the key: a chain of lt children
@@ -820,6 +1006,14 @@ pub fn dwide(g: &mut Gen, r: &mut Rng, cases: usize, max_parents: usize) {
         if r.chance(2, 3) {
             keys.push((vec![0xff, 0xff, 1], 0));
         }
+        // half of the cases: ONE key above the wide level below every other key, so that the wide
+        // page is the ROOT'S HIGH PAGE (its hundreds of children follow it in the serialisation and
+        // share the root's upper bound), instead of being the root itself
+        let wide_is_high = case % 2 == 1 || r.chance(1, 3);
+        if wide_is_high {
+            keys.insert(0, (vec![0, 0, 0], top + 1));
+            g.note("dwide-wide-page-is-roots-high-page");
+        }
         let nk = keys.len();
         let kds: Vec<Vec<u8>> = keys.iter().enumerate().map(|(i, (_, l))| digest_for_level(*l, base, n, (i as u8).wrapping_mul(2))).collect();
         g.op(format!("new 0 {base} n={n}"));
@@ -833,6 +1027,27 @@ pub fn dwide(g: &mut Gen, r: &mut Rng, cases: usize, max_parents: usize) {
         }
         g.op("hash 0".into());
         g.op("ser 0".into());
+        // IDENTICAL content: a clone, and a tree built independently in another order with hash
+        // requests in between - both directions must exchange nothing, however many pages there are
+        g.op("clone 5 0".into());
+        g.op("diff2 0 5".into());
+        g.op(format!("new 6 {base} n={n}"));
+        let mut order2: Vec<usize> = (0..nk).collect();
+        if r.chance(1, 2) {
+            order2.reverse();
+        } else {
+            r.shuffle(&mut order2);
+        }
+        for (step, &i) in order2.iter().enumerate() {
+            g.op(format!("ups 6 {} {} {}", xtok(&keys[i].0), xtok(&kds[i]), xtok(&val_digest(1, n))));
+            if step % 97 == 96 {
+                g.op("hashq 6".into());
+            }
+        }
+        g.op("hash 6".into());
+        g.op("diff2 0 6".into());
+        g.op("same 0 6".into());
+        g.cases += 2;
         // peers: clones with a few edits at chosen positions (first pages / around the 128th / 256th page / last pages)
         for variant in 0..3u64 {
             let t = 1 + variant;
